@@ -962,6 +962,10 @@ ldb_recover_log_file(ldb_t *db, uint64_t log_number,
         db->mem = ldb_memtable_create(&db->internal_comparator);
         ldb_memtable_ref(db->mem);
       }
+    } else {
+      /* The log is replaced by a new one: record that in the
+         descriptor so that the old file gets removed. */
+      *save_manifest = 1;
     }
   }
 
